@@ -8,6 +8,7 @@ import (
 	"net/http"
 	"net/url"
 	"reflect"
+	"runtime"
 	"strings"
 
 	stdlog "log"
@@ -55,8 +56,10 @@ var (
 	tyT1   = reflect.TypeOf(cT1{})
 	tyPT1  = reflect.TypeOf(&cT1{})
 	tyPT2  = reflect.TypeOf(&cT2{})
-	tyT2   = reflect.TypeOf(cT2{})     // by value: implements nothing (its methods have pointer receivers)
-	tySS   = reflect.TypeOf([]cS(nil)) // also the type of a variadic ...cS parameter
+	tyT2   = reflect.TypeOf(cT2{})                      // by value: implements nothing (its methods have pointer receivers)
+	tySS   = reflect.TypeOf([]cS(nil))                  // also the type of a variadic ...cS parameter
+	tyRV   = reflect.TypeOf(reflect.Value{})            // a service whose own type is reflect.Value is a service like any other
+	tyAny  = reflect.TypeOf((*interface{})(nil)).Elem() // the empty interface: every registered type implements it
 	tyT3   = reflect.TypeOf(cT3{})
 	tyPT4  = reflect.TypeOf(&cT4{})
 	tyS    = reflect.TypeOf(cS(""))
@@ -67,7 +70,7 @@ var (
 	tyI2   = reflect.TypeOf((*cI2)(nil)).Elem()
 	tyI12  = reflect.TypeOf((*cI12)(nil)).Elem()
 	tyI3   = reflect.TypeOf((*cI3)(nil)).Elem()
-	c04Tys = []reflect.Type{tyT1, tyPT1, tyPT2, tyT3, tyPT4, tyS, tyN, tyCh, tyRCh, tyI1, tyI2, tyI12, tyI3, tyT2, tySS}
+	c04Tys = []reflect.Type{tyT1, tyPT1, tyPT2, tyT3, tyPT4, tyS, tyN, tyCh, tyRCh, tyI1, tyI2, tyI12, tyI3, tyT2, tySS, tyRV, tyAny}
 )
 
 func tyName(t reflect.Type) string { return t.String() }
@@ -85,11 +88,12 @@ func tyByName(s string) reflect.Type {
 type injCase struct {
 	Scopes   int      `json:"scopes"` // 1..3, scope 0 outermost, the last one is the nearest
 	Regs     []injReg `json:"registrations"`
-	Later    []injReg `json:"later_registrations,omitempty"` // applied after the first invocation; then the handler is invoked again
-	Params   []string `json:"params"`                        // parameter types of the handler
-	Fast     string   `json:"fast,omitempty"`                // name of a hand-written FastInvoker wrapper with exactly these parameters
-	Apply    bool     `json:"apply,omitempty"`               // Apply to a struct with tagged fields instead of Invoke
-	Variadic bool     `json:"variadic,omitempty"`            // the function is variadic: its last parameter is ...cS, i.e. of type []cS, and is resolved like any other parameter
+	Later    []injReg `json:"later_registrations,omitempty"`         // applied after the first invocation; then the handler is invoked again
+	Params   []string `json:"params"`                                // parameter types of the handler
+	Fast     string   `json:"fast,omitempty"`                        // name of a hand-written FastInvoker wrapper with exactly these parameters
+	Apply    bool     `json:"apply,omitempty"`                       // Apply to a struct with tagged fields instead of Invoke
+	PanicTA  bool     `json:"body_fails_a_type_assertion,omitempty"` // the function's body panics with a failed type assertion: it has run once and the panic is the caller's
+	Variadic bool     `json:"variadic,omitempty"`                    // the function is variadic: its last parameter is ...cS, i.e. of type []cS, and is resolved like any other parameter
 }
 
 type injReg struct {
@@ -134,6 +138,8 @@ func mkValue(impl reflect.Type, tag string, chans map[string]string) reflect.Val
 		return reflect.ValueOf(cT2{tag})
 	case tySS:
 		return reflect.ValueOf([]cS{cS(tag), "second"})
+	case tyRV:
+		return reflect.ValueOf(reflect.ValueOf(cS(tag)))
 	case tyT3:
 		return reflect.ValueOf(cT3{tag})
 	case tyPT4:
@@ -178,6 +184,11 @@ func tagOfValue(v reflect.Value, chans map[string]string) string {
 		return x.Tag
 	case cT2:
 		return x.Tag
+	case reflect.Value:
+		if x.IsValid() && x.Type() == tyS {
+			return string(x.Interface().(cS))
+		}
+		return "?reflect.Value"
 	case []cS:
 		if len(x) == 0 {
 			return "?empty-slice"
@@ -221,7 +232,7 @@ func implsFor(key reflect.Type) []reflect.Type {
 }
 
 func genInjCase(rng *rand.Rand) *injCase {
-	c := &injCase{Scopes: 1 + rng.Intn(3)}
+	c := &injCase{Scopes: 1 + rng.Intn(3), PanicTA: rng.Intn(15) == 0}
 	n := 0
 	nregs := rng.Intn(9)
 	if rng.Intn(40) == 0 {
@@ -573,6 +584,8 @@ func buildScopes(c *injCase, chans map[string]string) ([]inject.Injector, scopeT
 				scopes[rg.Scope].MapTo(v.Interface(), (*cI2)(nil))
 			case tyI3:
 				scopes[rg.Scope].MapTo(v.Interface(), (*cI3)(nil))
+			case tyAny:
+				scopes[rg.Scope].MapTo(v.Interface(), (*interface{})(nil))
 			default:
 				scopes[rg.Scope].MapTo(v.Interface(), (*cI12)(nil))
 			}
@@ -726,11 +739,35 @@ func judgeInj(w *core.W, c *injCase) {
 
 	// reflective
 	var o injObs
+	resolvable := true
+	for _, a := range accept {
+		resolvable = resolvable && a != nil
+	}
+	failAssertion := func() {
+		if c.PanicTA {
+			var i interface{} = 1
+			_ = i.(string)
+		}
+	}
+	// taVerdict: a body that fails a type assertion has run exactly once and its panic reaches the caller
+	taVerdict := func(o injObs) string {
+		if !c.PanicTA || !resolvable {
+			return ""
+		}
+		if _, ok := o.pan.(*runtime.TypeAssertionError); !ok {
+			return fmt.Sprintf("the body failed a type assertion, the caller saw %v", o.pan)
+		}
+		if o.ran != 1 {
+			return fmt.Sprintf("the body failed a type assertion and ran %d times", o.ran)
+		}
+		return ""
+	}
 	fn := reflect.MakeFunc(reflect.FuncOf(params, []reflect.Type{tInt, tString}, c.Variadic), func(args []reflect.Value) []reflect.Value {
 		o.ran++
 		for _, a := range args {
 			o.tags = append(o.tags, tagOfValue(a, chans))
 		}
+		failAssertion()
 		return []reflect.Value{reflect.ValueOf(42), reflect.ValueOf("res")}
 	})
 	func() {
@@ -738,7 +775,13 @@ func judgeInj(w *core.W, c *injCase) {
 		o.ret, o.err = nearest.Invoke(fn.Interface())
 	}()
 	w.Count("invocations:reflective")
-	if msg := injVerdict(params, accept, o); msg != "" {
+	if c.PanicTA && resolvable {
+		w.Count("body-failed-a-type-assertion")
+		if msg := taVerdict(o); msg != "" {
+			w.Violate("inject", c, "[reflective] "+msg)
+			return
+		}
+	} else if msg := injVerdict(params, accept, o); msg != "" {
 		w.Violate("inject", c, "[reflective] "+msg)
 		return
 	}
@@ -749,6 +792,7 @@ func judgeInj(w *core.W, c *injCase) {
 			for _, a := range args {
 				fo.tags = append(fo.tags, tagOfValue(reflect.ValueOf(a), chans))
 			}
+			failAssertion()
 		})
 		if !inject.IsFastInvoker(h) {
 			panic("harness: wrapper is not a FastInvoker")
@@ -758,6 +802,12 @@ func judgeInj(w *core.W, c *injCase) {
 			fo.ret, fo.err = nearest.Invoke(h)
 		}()
 		w.Count("invocations:fast")
+		if c.PanicTA && resolvable {
+			if msg := taVerdict(fo); msg != "" {
+				w.Violate("inject", c, "[fast invoker "+c.Fast+"] "+msg)
+			}
+			return
+		}
 		if msg := injVerdict(params, accept, fo); msg != "" {
 			w.Violate("inject", c, "[fast invoker "+c.Fast+"] "+msg)
 			return
@@ -872,7 +922,11 @@ func genFlameInjCase(rng *rand.Rand) *flameInjCase {
 		c.Req = append(c.Req, gen())
 	}
 	for k := rng.Intn(4); k > 0; k-- {
-		c.Params = append(c.Params, tyName(pickParam(rng, append(append([]injReg{}, c.App...), c.Req...))))
+		pt := pickParam(rng, append(append([]injReg{}, c.App...), c.Req...))
+		if pt == tyAny {
+			pt = tyS // the request scope also holds what the framework maps itself: any of that satisfies interface{}
+		}
+		c.Params = append(c.Params, tyName(pt))
 	}
 	return c
 }
@@ -891,6 +945,8 @@ func applyReg(m inject.TypeMapper, rg injReg, chans map[string]string) {
 			m.MapTo(v.Interface(), (*cI2)(nil))
 		case tyI3:
 			m.MapTo(v.Interface(), (*cI3)(nil))
+		case tyAny:
+			m.MapTo(v.Interface(), (*interface{})(nil))
 		default:
 			m.MapTo(v.Interface(), (*cI12)(nil))
 		}
